@@ -395,40 +395,24 @@ congruence<Number>::operator%(const congruence<Number> &o) const {
     return congruence<Number>::top();
   else {
     /*
+       The signed remainder x % y has the sign of x and it is congruent
+       with x modulo y. Hence, for x in aZ+b and y in a'Z+b' the result
+       is always in gcd(a,a',b')Z+b.
+
          aZ+b mod 0Z+b':
-             if b'|a then  (a/b')Z + b/b'
-             else          top
+             if b'|a and b'|b then 0Z+0
+             else                  gcd(a,b')Z+b
     */
     if (o.m_a == 0) {
-      if (m_a % o.m_b == 0) {
-        return congruence<Number>(Number(0), m_b % o.m_b);
+      if (m_a % o.m_b == 0 && m_b % o.m_b == 0) {
+        return congruence<Number>(Number(0), Number(0));
       } else {
         return congruence<Number>(gcd(m_a, o.m_b), m_b);
       }
     }
-    /*
-          0Z+b mod a'Z+b':
-           if N<=0           then 0Z+b
-           if (b div N) == 1 then gcd(b',a')Z + b
-           if (b div N) >= 2 then N(b div N)Z  + b
-
-         where N = a'((b-b') div a') + b'
-    */
-    if (m_a == 0) {
-      Number n(o.m_a * (((m_b - o.m_b) / o.m_a) + o.m_b));
-      if (n <= 0) {
-        return congruence<Number>(m_a, m_b);
-      } else if (m_b == n) {
-        return congruence<Number>(gcd(o.m_b, o.m_a), m_b);
-      } else if ((m_b / n) >= 2) {
-        return congruence<Number>(m_b, m_b);
-      } else {
-        CRAB_ERROR("unreachable");
-      }
-    }
 
     /*
-      general case: no singleton
+      general case (it includes 0Z+b mod a'Z+b')
     */
     return congruence<Number>(gcd(m_a, o.m_a, o.m_b), m_b);
   }
